@@ -13,6 +13,7 @@ package main
 //                                       the client's Write of the setup packet returns
 //   mux closeiso <cap> <extra>          a logical channel is closed while another one holds cap+extra unread packages
 //   mux duplex <nchan> <rounds> <seed>  on every channel concurrently: part of a package arrives, the owner sends, the rest arrives
+//   mux fmtsplit <nchan> <rounds>       on every channel: a packet ending exactly with a ROWFMT, packets of the other channels, then ROW + DONE
 //   mux closefail <once>                a logical channel is closed while the transport refuses the teardown packet
 //   mux setup <acktype>                 NewChannel for a logical channel succeeds iff the reply is a header-only
 //                                       PROTACK packet
@@ -489,6 +490,49 @@ func muxImpl(line string) string {
 			}
 		}
 		return "ok duplex"
+	case "fmtsplit":
+		// on every channel, interleaved with the others: a packet that ends exactly with a format package, then
+		// (after packets of other channels) the packet with its data package and the DONE — the data package
+		// is read against its format whatever arrived in between and however the packets were cut
+		nchan, rounds := arg(2), arg(3)
+		mc := newMemConn()
+		conn, _ := tds.VerifNewConn(context.Background(), mc, testInfo(), true)
+		defer conn.VerifCancel()
+		defer mc.Close()
+		var chans []*tds.Channel
+		for c := 0; c < nchan; c++ {
+			chans = append(chans, conn.VerifNewChannel(c))
+		}
+		pkt := func(c int, eom byte, body []byte) []byte {
+			return append([]byte{4, eom, 0, byte(len(body) + 8), byte(c >> 8), byte(c), 0, 0}, body...)
+		}
+		for m := 0; m < rounds; m++ {
+			for c := 0; c < nchan; c++ {
+				mc.feed(pkt(c, 0, rdRowFmt()))
+			}
+			for c := nchan - 1; c >= 0; c-- {
+				row := append([]byte{0xD1}, le32(c*100+m)...)
+				mc.feed(pkt(c, 1, append(row, wDone(0xFD, 0, 0, m)...)))
+			}
+		}
+		ctx, cancel := context.WithTimeout(context.Background(), 3*time.Second)
+		defer cancel()
+		for m := 0; m < rounds; m++ {
+			for c := 0; c < nchan; c++ {
+				var kinds []string
+				for k := 0; k < 3; k++ {
+					p, err := chans[c].NextPackage(ctx, true)
+					if err != nil {
+						return fmt.Sprintf("each package is delivered to exactly the channel named in its packet header, in the order the server sent it (channel %d round %d: %v after %v)", c, m, err, kinds)
+					}
+					kinds = append(kinds, fmt.Sprintf("%T", p))
+				}
+				if strings.Join(kinds, ",") != "*tds.RowFmtPackage,*tds.RowPackage,*tds.DonePackage" {
+					return fmt.Sprintf("each package is delivered to exactly the channel named in its packet header, in the order the server sent it (channel %d round %d: %v)", c, m, kinds)
+				}
+			}
+		}
+		return "ok fmtsplit"
 	case "closefail":
 		// a logical channel is closed while the transport refuses the write of the teardown packet (once, or
 		// from then on): the client-side teardown happens all the same — the id is no longer routed (a later
@@ -634,6 +678,7 @@ func init() {
 					emit(Case{Line: fmt.Sprintf("mux closeiso %d %d", 1+rng.Intn(5), rng.Intn(4)), Kind: "close-isolated"})
 					emit(Case{Line: fmt.Sprintf("mux closefail %d #%d", i/4%2, i), Kind: "close-write-fails"})
 					emit(Case{Line: fmt.Sprintf("mux duplex %d %d %d", 1+rng.Intn(5), 1+rng.Intn(6), rng.Intn(1<<20)), Kind: "send-between-the-parts-of-a-package"})
+					emit(Case{Line: fmt.Sprintf("mux fmtsplit %d %d", 1+rng.Intn(4), 1+rng.Intn(3)), Kind: "packet-ends-with-a-format"})
 					emit(Case{Line: fmt.Sprintf("mux setupsync %d", 1+rng.Intn(4)), Kind: "setup-ack-at-once"})
 				}
 			}
